@@ -236,6 +236,15 @@ def run_job(job):
                 refused = tree.materialise(os.path.join(w, name), nodes)
                 for rf in refused:
                     res.inc("refused: %s" % (rf,))
+                # hard links: several directory entries for one inode are several entries
+                fl = [n for n in nodes if n["kind"] == "file"]
+                dl = [""] + [n["path"] for n in nodes if n["kind"] == "dir"]
+                for k in range(rng.choice([0, 1, 2]) if fl else 0):
+                    try:
+                        os.link(os.path.join(w, name, rng.choice(fl)["path"]), os.path.join(w, name, rng.choice(dl), "hardlink%d" % k))
+                        res.count("hard_links_in_trees")
+                    except OSError:
+                        pass
                 snap = tree.snapshot(os.path.join(w, name))
                 snaps.append(snap)
                 maxd = max([maxd] + [e.level for e in snap])
